@@ -7,13 +7,13 @@ package main
 // opaque step and what it assigns becomes unknown.
 
 import (
-	"go/constant"
-	"strconv"
 	"fmt"
 	"go/ast"
+	"go/constant"
 	"go/token"
 	"go/types"
 	"sort"
+	"strconv"
 	"strings"
 )
 
@@ -33,6 +33,9 @@ type dtPath struct {
 	Steps  []string // calls and stores executed on the path, in order
 	Calls  []dtCall // the calls among Steps, structured
 	env    map[types.Object]string
+	// sub: calls already evaluated by following the callee (hoisted out of the expression they are
+	// nested in); canon prints them as the value the callee returned on this path
+	sub map[*ast.CallExpr]string
 }
 
 type dtCall struct {
@@ -81,6 +84,12 @@ func (p *dtPath) clone() *dtPath {
 	for k, v := range p.env {
 		n.env[k] = v
 	}
+	if p.sub != nil {
+		n.sub = map[*ast.CallExpr]string{}
+		for k, v := range p.sub {
+			n.sub[k] = v
+		}
+	}
 	return n
 }
 
@@ -113,6 +122,13 @@ type dtEnum struct {
 	getters map[*types.Func]string
 	// absVars: print variables that have no recorded definition as var<type> instead of by name
 	absVars bool
+	// hoistCalls: calls of callInline functions nested inside the expressions of a statement are followed
+	// first (in source order) and printed as what the callee returned
+	hoistCalls bool
+	// boolReturns: a non-constant boolean result splits the path (the path then returns true or false)
+	boolReturns bool
+	// constStrings: named string constants of the analysed module print as their literal value
+	constStrings bool
 }
 
 func newDT(info *types.Info) *dtEnum {
@@ -138,6 +154,9 @@ func (d *dtEnum) canon(p *dtPath, e ast.Expr) string {
 			if _, isPkg := obj.(*types.PkgName); isPkg {
 				return obj.(*types.PkgName).Imported().Path()
 			}
+			if k, isConst := obj.(*types.Const); isConst && d.constStrings && k.Val().Kind() == constant.String && k.Pkg() != nil && strings.HasPrefix(k.Pkg().Path(), modPath) {
+				return strconv.Quote(constant.StringVal(k.Val()))
+			}
 			if v, ok := obj.(*types.Var); ok && d.absVars && !v.IsField() && v.Pkg() != nil && v.Parent() != v.Pkg().Scope() {
 				return "var<" + shortType(v.Type()) + ">"
 			}
@@ -161,6 +180,9 @@ func (d *dtEnum) canon(p *dtPath, e ast.Expr) string {
 	case *ast.SliceExpr:
 		return d.canon(p, x.X) + "[" + d.canon(p, x.Low) + ":" + d.canon(p, x.High) + "]"
 	case *ast.CallExpr:
+		if v, ok := p.sub[x]; ok {
+			return v
+		}
 		var args []string
 		for _, a := range x.Args {
 			args = append(args, d.canon(p, a))
@@ -178,7 +200,7 @@ func (d *dtEnum) canon(p *dtPath, e ast.Expr) string {
 				}
 			}
 		}
-		if d.exprInline != nil && d.exprDepth < 3 {
+		if d.exprInline != nil && d.exprDepth < 6 {
 			if fn := calleeFunc(d.info, x); fn != nil {
 				if fd := d.exprInline[fn]; fd != nil {
 					if q := d.bindCall(p, fd, x); q != nil {
@@ -340,6 +362,10 @@ func (d *dtEnum) cond(p *dtPath, e ast.Expr, k func(p *dtPath, v bool)) {
 		case v == "nil":
 			k(p, !neg)
 			return
+		case v == "zero" && nillableOperand(d.info, e):
+			// the zero value of a pointer, interface, map, slice, channel or function variable
+			k(p, !neg)
+			return
 		case strings.HasPrefix(v, "fmt.Errorf(") || strings.HasPrefix(v, "errors.New(") || strings.HasPrefix(v, "internal/stackerr.NewStackErr(") || strings.HasPrefix(v, "&"):
 			k(p, neg)
 			return
@@ -409,6 +435,9 @@ func (d *dtEnum) noteCalls(p *dtPath, n ast.Node) (exits bool) {
 		case *ast.FuncLit:
 			return false
 		case *ast.CallExpr:
+			if _, hoisted := p.sub[c]; hoisted {
+				return true // evaluated (and recorded) when it was followed
+			}
 			name := calleeName(d.info, c)
 			if name == "" {
 				name = d.canon(p, c.Fun)
@@ -431,7 +460,132 @@ func (d *dtEnum) noteCalls(p *dtPath, n ast.Node) (exits bool) {
 	return
 }
 
+// hoistable returns the first call nested in the statement's own expressions (not in nested statements,
+// function literals or the right operand of && and ||) that can be followed and has not been yet.
+func (d *dtEnum) hoistable(p *dtPath, s ast.Stmt) *ast.CallExpr {
+	var roots []ast.Expr
+	var top *ast.CallExpr // the statement-position call the statement rules follow themselves
+	switch x := s.(type) {
+	case *ast.ReturnStmt:
+		roots = x.Results
+		if len(x.Results) == 1 {
+			top, _ = ast.Unparen(x.Results[0]).(*ast.CallExpr)
+		}
+	case *ast.AssignStmt:
+		roots = append(roots, x.Rhs...)
+		if len(x.Rhs) == 1 {
+			top, _ = ast.Unparen(x.Rhs[0]).(*ast.CallExpr)
+		}
+	case *ast.ExprStmt:
+		roots = []ast.Expr{x.X}
+		top, _ = ast.Unparen(x.X).(*ast.CallExpr)
+	case *ast.IfStmt:
+		if x.Init == nil {
+			roots = []ast.Expr{x.Cond}
+		}
+	case *ast.DeclStmt:
+		if gd, ok := x.Decl.(*ast.GenDecl); ok {
+			for _, sp := range gd.Specs {
+				if vs, ok := sp.(*ast.ValueSpec); ok {
+					roots = append(roots, vs.Values...)
+				}
+			}
+		}
+	}
+	var found *ast.CallExpr
+	for _, r := range roots {
+		ast.Inspect(r, func(n ast.Node) bool {
+			if found != nil {
+				return false
+			}
+			switch y := n.(type) {
+			case *ast.FuncLit:
+				return false
+			case *ast.BinaryExpr:
+				if y.Op == token.LAND || y.Op == token.LOR {
+					// only the left operand is certainly evaluated
+					ast.Inspect(y.X, func(m ast.Node) bool {
+						if c, ok := m.(*ast.CallExpr); ok && found == nil && d.canHoist(p, c, top) {
+							found = c
+						}
+						_, lit := m.(*ast.FuncLit)
+						return !lit && found == nil
+					})
+					return false
+				}
+			case *ast.CallExpr:
+				// arguments are evaluated before the call: look inside first
+				for _, a := range y.Args {
+					ast.Inspect(a, func(m ast.Node) bool {
+						if c, ok := m.(*ast.CallExpr); ok && found == nil && d.canHoist(p, c, top) {
+							found = c
+						}
+						_, lit := m.(*ast.FuncLit)
+						return !lit && found == nil
+					})
+				}
+				if found == nil && d.canHoist(p, y, top) {
+					found = y
+				}
+				return found == nil
+			}
+			return true
+		})
+	}
+	return found
+}
+
+func (d *dtEnum) canHoist(p *dtPath, c *ast.CallExpr, top *ast.CallExpr) bool {
+	if c == top {
+		return false
+	}
+	if _, done := p.sub[c]; done {
+		return false
+	}
+	fn := calleeFunc(d.info, c)
+	if fn == nil {
+		return false
+	}
+	fd := d.callInline[fn]
+	if fd == nil || fd.Type.Results == nil || fd.Type.Results.NumFields() != 1 || len(d.frames) >= 3 {
+		return false
+	}
+	if d.exprInline != nil && d.exprInline[fn] != nil {
+		return false // printed as its expression anyway
+	}
+	for _, f := range d.frames {
+		if f.fd == fd {
+			return false
+		}
+	}
+	return true
+}
+
 func (d *dtEnum) stmt(p *dtPath, s ast.Stmt, k func(p *dtPath)) {
+	if d.hoistCalls && d.callInline != nil {
+		if c := d.hoistable(p, s); c != nil {
+			if d.follow(p, c, func(q *dtPath, rets []string) {
+				if q.sub == nil {
+					q.sub = map[*ast.CallExpr]string{}
+				}
+				v := "unknown"
+				if len(rets) > 0 {
+					v = rets[0]
+				}
+				q.sub[c] = v
+				d.stmt(q, s, k)
+			}) {
+				return
+			}
+			// not followable after all: remember, so that the statement is handled as it stands
+			if p.sub == nil {
+				p.sub = map[*ast.CallExpr]string{}
+			}
+			p.sub[c] = d.canonNoSub(p, c)
+			d.stmt(p, s, k)
+			return
+		}
+	}
 	switch x := s.(type) {
 	case nil:
 		k(p)
@@ -501,6 +655,35 @@ func (d *dtEnum) stmt(p *dtPath, s ast.Stmt, k func(p *dtPath)) {
 					}
 				}
 			}
+		}
+		if d.boolReturns {
+			// a boolean result that is not a constant is a decision: the path splits on it and returns true/false
+			for i, r := range x.Results {
+				if t := d.info.TypeOf(r); t != nil && len(p.Ret) == i {
+					if b, ok := t.Underlying().(*types.Basic); ok && b.Kind() == types.Bool || t == types.Typ[types.UntypedBool] {
+						if cs := d.canon(p, r); cs != "true" && cs != "false" {
+							rest := x.Results[i+1:]
+							pos := x.Pos()
+							d.noteCalls(p, r)
+							d.cond(p, r, func(q *dtPath, v bool) {
+								q.Ret = append(q.Ret, map[bool]string{true: "true", false: "false"}[v])
+								for _, r2 := range rest {
+									q.Ret = append(q.Ret, d.canon(q, r2))
+									d.noteCalls(q, r2)
+								}
+								q.RetPos = pos
+								d.finish(q, "return")
+							})
+							return
+						}
+					}
+				}
+				p.Ret = append(p.Ret, d.canon(p, r))
+				d.noteCalls(p, r)
+			}
+			p.RetPos = x.Pos()
+			d.finish(p, "return")
+			return
 		}
 		for _, r := range x.Results {
 			p.Ret = append(p.Ret, d.canon(p, r))
@@ -1159,6 +1342,12 @@ func (d *dtEnum) fieldStore(p *dtPath, lhs ast.Expr, val string) {
 	p.env[obj] = prefix + renderStructLit(typ, st, vals)
 }
 
+// canonNoSub prints a call as it stands (used when hoisting it failed).
+func (d *dtEnum) canonNoSub(p *dtPath, c *ast.CallExpr) string {
+	delete(p.sub, c)
+	return d.canon(p, c)
+}
+
 // returnWith ends the current function on path p with the given values: to the caller's
 // continuation when a followed call is being evaluated, as a finished path otherwise.
 func (d *dtEnum) returnWith(p *dtPath, rets []string, pos token.Pos) {
@@ -1172,4 +1361,24 @@ func (d *dtEnum) returnWith(p *dtPath, rets []string, pos token.Pos) {
 	p.Ret = append(p.Ret, rets...)
 	p.RetPos = pos
 	d.finish(p, "return")
+}
+
+// nillableOperand: e is a comparison with nil whose other operand has a type whose zero value is nil.
+func nillableOperand(info *types.Info, e ast.Expr) bool {
+	be, ok := ast.Unparen(e).(*ast.BinaryExpr)
+	if !ok {
+		return false
+	}
+	for _, side := range []ast.Expr{be.X, be.Y} {
+		if isNilIdent(info, side) {
+			continue
+		}
+		if t := info.TypeOf(side); t != nil {
+			switch t.Underlying().(type) {
+			case *types.Pointer, *types.Interface, *types.Map, *types.Slice, *types.Chan, *types.Signature:
+				return true
+			}
+		}
+	}
+	return false
 }
